@@ -20,6 +20,7 @@ type c10gen struct {
 	rng     Rng
 	canon   bool // only canonical dynamic types
 	negZero bool // every zero float of this case is -0.0 (else +0.0): keeps the leaf-text table unambiguous
+	width   int  // non-canonical cases use ONE Go type per numeric kind (two widths of one value have the same text)
 }
 
 func (g *c10gen) zero(f float64) float64 {
@@ -48,26 +49,32 @@ func (g *c10gen) leaf() any {
 	case 2:
 		i := intBoundaries[r.Intn(len(intBoundaries))]
 		if !g.canon {
-			switch r.Intn(4) {
+			switch g.width {
 			case 0:
 				return int(i)
 			case 1:
-				return int8(i)
+				if i >= math.MinInt8 && i <= math.MaxInt8 {
+					return int8(i)
+				}
+				return int8(i % 100)
 			case 2:
-				return int16(i)
+				if i >= math.MinInt16 && i <= math.MaxInt16 {
+					return int16(i)
+				}
+				return int16(i % 10000)
 			}
 		}
 		return i
 	case 3:
 		u := unsBoundaries[r.Intn(len(unsBoundaries))]
 		if !g.canon {
-			switch r.Intn(4) {
+			switch g.width {
 			case 0:
 				return uint(u)
 			case 1:
-				return uint8(u)
+				return uint8(u % 256)
 			case 2:
-				return uint16(u)
+				return uint16(u % 65536)
 			}
 		}
 		return u
@@ -83,7 +90,10 @@ func (g *c10gen) leaf() any {
 			}
 		}
 		f = g.zero(f)
-		if !g.canon && r.Intn(3) == 0 && !math.IsInf(float64(float32(f)), 0) && float32(f) != 0 {
+		if !g.canon && g.width == 1 {
+			if math.IsInf(float64(float32(f)), 0) || float32(f) == 0 {
+				return float32(2.5)
+			}
 			return float32(f)
 		}
 		return f
@@ -100,6 +110,10 @@ func (g *c10gen) leaf() any {
 }
 
 func (g *c10gen) key() any {
+	// keys always have canonical types: int8(-1) and int64(-1) are distinct Go keys with the same text
+	saved := g.canon
+	g.canon = true
+	defer func() { g.canon = saved }()
 	for {
 		k := g.leaf()
 		switch k.(type) {
@@ -291,6 +305,7 @@ func runC10(tier string, seed int64, out *Out) {
 	gn := &c10gen{rng: rng, canon: false}
 	for i := 0; i < n/4; i++ {
 		caseID++
+		gn.width = i % 4
 		rtLine(out, caseID, gn.collection(rng.Intn(3)), false, J{"gen": "widths"})
 	}
 	// nests around and beyond the formatter's limit (elision), singletons and multi-item
